@@ -25,10 +25,12 @@
 (*   FixEmpty   FALSE: as written.  TRUE: proposed repair for F11 / C18a - a request that covers no byte is granted without   *)
 (*              being stored (sentinel handle), adjust_range refuses a target that covers no byte.                          *)
 (*   FixAdjust  FALSE: as written.  TRUE: proposed repair for C18b - adjust_range wakes the waiters of the adjusted entry.    *)
+(*   OnlyNonEmpty  TRUE restricts requests and adjust targets to ranges that cover at least one byte (the region outside     *)
+(*              F11 / C18a) - used to check the design as written where it is not already known to fail.                    *)
 (*   Broken     "none" | "nonotify" (erase does not wake waiters) | "adjnocheck" (adjust_range without the neighbour test)   *)
 (*              | "lbskip" (conflict test compares with the wrong end): deliberately wrong variants, must be caught.        *)
 EXTENDS Naturals, Integers, Sequences, FiniteSets, TLC
-CONSTANTS MAXU, Offs, Lens, Threads, MaxOps, Kinds, MaxIntr, FixEmpty, FixAdjust, Broken
+CONSTANTS MAXU, Offs, Lens, Threads, MaxOps, Kinds, MaxIntr, FixEmpty, FixAdjust, Broken, OnlyNonEmpty
 
 Min2(a, b) == IF a < b THEN a ELSE b
 Max2(a, b) == IF a > b THEN a ELSE b
@@ -38,7 +40,9 @@ IsEmpty(r) == End(r) = r.off                              \* covers no byte
 Contains(a, b) == a.off <= b.off /\ End(a) >= End(b)      \* range_t::contains
 Overlap(a, b) == Max2(a.off, b.off) < Min2(End(a), End(b))   \* share a byte
 Touch(a, b) == a.off < End(b) /\ b.off < End(a)           \* the interval test
-Ranges == [off : Offs, len : Lens]
+\* ranges in scope: every extent once, plus one saturating representative per offset (off + len = MAXU + 1 overflows the word
+\* by one; longer lengths saturate to the same extent and behave identically)
+Ranges == {r \in [off : Offs, len : Lens] : r.off + r.len <= MAXU + 1 /\ (OnlyNonEmpty => Min2(MAXU, r.off + r.len) > r.off)}
 NoReq == [kind |-> "none", off |-> 0, len |-> 0]
 NoId == <<0, 0>>
 
@@ -56,7 +60,8 @@ Ids(seq) == {seq[i].id : i \in 1..Len(seq)}
 AllIds == Ids(index) \cup {e.id : e \in lost}
 Rng(e) == [off |-> e.off, len |-> e.len]
 Held == UNION {own[t] : t \in Threads}
-Slot(t) == nops[t] + 1
+\* identity of a new entry of thread t: its smallest free slot (keeps the state space independent of history)
+Slot(t) == CHOOSE k \in 1..MaxOps : (\A e \in own[t] : e.id # <<t, k>>) /\ \A k2 \in 1..(k - 1) : \E e \in own[t] : e.id = <<t, k2>>
 
 Init == /\ index = <<>> /\ lost = {} /\ pc = [t \in Threads |-> "idle"] /\ req = [t \in Threads |-> NoReq]
         /\ waitOn = [t \in Threads |-> NoId] /\ own = [t \in Threads |-> {}] /\ nops = [t \in Threads |-> 0]
@@ -83,8 +88,9 @@ Grant(t, kind, r, stored) ==
 ConflictAt(s, j, r) == j <= Len(s) /\ (IF Broken = "lbskip" THEN End(s[j]) < End(r) ELSE s[j].off < End(r))
 Attempt(t, kind, r) ==
   IF FixEmpty /\ IsEmpty(r)
-  THEN /\ Grant(t, kind, r, FALSE) /\ pc' = [pc EXCEPT ![t] = "idle"] /\ req' = [req EXCEPT ![t] = NoReq]
-       /\ nops' = [nops EXCEPT ![t] = @ + 1] /\ UNCHANGED <<index, lost, waitOn>>
+  THEN \* granted without being stored: the sentinel handle is not recorded either (unlock / adjust_range on it do nothing)
+       /\ pc' = [pc EXCEPT ![t] = "idle"] /\ req' = [req EXCEPT ![t] = NoReq]
+       /\ nops' = [nops EXCEPT ![t] = @ + 1] /\ UNCHANGED <<index, lost, waitOn, own>>
   ELSE \E j \in LB(index, r) :
          IF ConflictAt(index, j, r)
          THEN /\ pc' = [pc EXCEPT ![t] = "wait"] /\ waitOn' = [waitOn EXCEPT ![t] = index[j].id]      \* cond.wait(m_lock): atomic
